@@ -110,6 +110,30 @@ def p8_extra(mod, tree, src):
             out.append(_fail('include_newline_kind', 'include_yield_shape'))
     except Exception as e:  # noqa
         out.append(_fail('include_newline_kind', 'process_includes_%s' % type(e).__name__))
+    # which lines of an included cart are offered to lines_for_tab: 0 = the chunks of inc_game.lua.to_lines(),
+    # 1 = the text lines of the joined code (io.BytesIO(b''.join(inc_game.lua.to_lines())))
+    try:
+        f = P.find_function(tree, 'process_includes')
+        nodes = P.ordered_nodes(f)
+        loops = [n for n in nodes if isinstance(n, ast.For) and isinstance(n.iter, ast.Call)
+                 and isinstance(n.iter.func, ast.Name) and n.iter.func.id == 'lines_for_tab']
+        kind = None
+        if len(loops) == 1 and len(loops[0].iter.args) == 2:
+            a0 = ast.dump(loops[0].iter.args[0])
+            if a0 == ast.dump(ast.parse('inc_game.lua.to_lines()', mode='eval').body):
+                kind = 0
+            elif a0 == ast.dump(ast.parse('inc_code', mode='eval').body):
+                asg = [n for n in nodes if isinstance(n, ast.Assign) and len(n.targets) == 1
+                       and isinstance(n.targets[0], ast.Name) and n.targets[0].id == 'inc_code']
+                want = ast.dump(ast.parse("inc_code = io.BytesIO(b''.join(inc_game.lua.to_lines()))").body[0])
+                if len(asg) == 1 and ast.dump(asg[0]) == want:
+                    kind = 1
+        if kind is None:
+            out.append(_fail('include_cart_lines_kind', 'include_cart_lines_shape'))
+        else:
+            out.append('Definition include_cart_lines_kind : Z := %d.\n' % kind)
+    except Exception as e:  # noqa
+        out.append(_fail('include_cart_lines_kind', 'process_includes_%s' % type(e).__name__))
     return ''.join(out)
 
 
